@@ -283,7 +283,20 @@ func TestSim(t *testing.T) {
 			t.Fatalf("no profile for %s", prop)
 		}
 		cfg := prof.Build(seed, tier)
-		cfg.Avoid, _ = avoidFlags()
+		{
+			// the constraints in force for this run: those of the open findings minus what the profile lifts
+			all, _ := avoidFlags()
+			cfg.Avoid = nil
+			for _, a := range all {
+				lifted := false
+				for _, x := range cfg.IgnoreAvoid {
+					lifted = lifted || x == a
+				}
+				if !lifted {
+					cfg.Avoid = append(cfg.Avoid, a)
+				}
+			}
+		}
 		res := runOne(t, prof, cfg, rt.NewTape(seed), trace)
 		if os.Getenv("HAPSIM_SAMPLE") != "" && i == 0 && res.Config == nil {
 			res.Config = cfg
